@@ -83,3 +83,25 @@ PLANS["C07"] = dict(
                  "float64 interpolation error on these lattices is < 1e-7 lattice units (residual checked per vertex)"],
     trusted_base=["TLC 2026.09.04", "CommunityModules Json/IOUtils", "harness lattice projection (quant)"],
 )
+
+# ---- C08 -------------------------------------------------------------------------------------------
+
+
+def run_c08(ctx):
+    ctx.mc("ClipRingMC", "ClipRingMC_%s.cfg" % ctx.tier,
+           note="Sutherland-Hodgman transcription satisfies the region predicate, in-box, closure, inside-unchanged, disjoint-nothing, split additivity")
+    shards = ctx.gen("clipring")
+    ctx.validate("ClipRing_Trace", shards)
+    ctx.exhaustive = True
+    ctx.notes.append("exhaustive part: every closed 3-vertex ring of the 5x5 (quick) / 6x6 (thorough) grid x every box with integer corners")
+
+
+PLANS["C08"] = dict(
+    run=run_c08, signature=sig_default,
+    technique="TLA+ region predicates (exact even-odd membership on a query lattice, shoelace additivity); TLC model-checks the Sutherland-Hodgman design against them and validates traces of the real clip.Ring/Polygon/MultiPolygon/Collection/Geometry/Bound and mvt Layer.Clip calls",
+    level_text="TLC exhaustively checks that the four-pass Sutherland-Hodgman transcription of clip.ring() satisfies the region predicate (q in output iff q in input for every quarter-step lattice point strictly inside the box and off all boundaries), in-box, closure, inside-unchanged, bound-disjoint-nothing and split additivity of the signed area for every closed ring of <=3 (quick) / <=4 (thorough) vertices on a 5x5 grid x 9 boxes, and judges the real code's outputs on every closed 3-vertex ring x every box, seeded 4..12-vertex arbitrary/star-shaped rings on integer and half-integer grids, polygons with holes, multipolygons, all box splits, and the structural laws of MultiPoint, Bound, Collection, generic Geometry and mvt Layer.Clip.",
+    level_note="Vertices on 7x7 integer / half-integer grids; outputs projected to the 1/60 (1/120) lattice (residual > 1e-7 lattice units = 'offlattice' event, rejected). 'A ring disjoint from the box yields nothing' is checked for rings whose bound misses the box; a ring that surrounds the box without meeting it must only produce a region-empty result. General-position floats are not covered. Trusted: TLC, Json module, the lattice projection.",
+    rule="one event = one real clip call with input and output in lattice units; non-trivial = output non-empty and different from the input (clipring), both halves non-empty (clipsplit), some but not all points kept (clippts), more than one member (clipcoll); distinct = distinct event text",
+    assumptions=["every Sutherland-Hodgman vertex is an input vertex, a box corner or an input edge /\\ box line, hence on the lattice (residual checked per vertex)"],
+    trusted_base=["TLC 2026.09.04", "CommunityModules Json/IOUtils", "harness lattice projection (quant)"],
+)
